@@ -197,8 +197,8 @@ fn run_case(ctx: &mut Ctx, n: usize, directed: bool, edges: Vec<E>, thorough: bo
                     v_compact!(ctx, &abs, &b);
                 }
             }
-            for hole in [false, true] {
-                if let Some(b) = if hole { enc::matrix_hole::<$T, u8>(&abs) } else { enc::matrix::<$T, u8>(&abs) } {
+            for hole in 0..3 {
+                if let Some(b) = match hole { 0 => enc::matrix::<$T, u8>(&abs), 1 => enc::matrix_hole::<$T, u8>(&abs), _ => enc::matrix_holes2::<$T, u8>(&abs) } {
                     v_core!(ctx, &abs, &b, false);
                     v_counts!(ctx, &abs, &b, nodes);
                     v_counts!(ctx, &abs, &b, edges);
